@@ -48,6 +48,21 @@ def index_entries(body, tb):
     return out
 
 
+def _must_pass(body, through, targets):
+    """Every path from the entry to a block of `targets` goes through a block of `through`: by dominance, or - when a helper that
+    returns a Result was inlined, so that its Ok and Err exits meet again before the caller's `?` - by path-sensitive reachability
+    with the `through` blocks taken out (bodies of at most 200 blocks)."""
+    if not through:
+        return False
+    if all(any(body.dominates(h, x) for h in through) for x in targets):
+        return True
+    if len(body.blocks) > 200:
+        return False        # the path explorer is kept to small bodies (sign / clear); prepare_data is decided by dominance alone
+    from pathsens import ps_reach
+    seen = ps_reach(body, 0, blocked_blocks=set(through))
+    return not any(x in seen for x in targets)
+
+
 def check_always_recorded(f, rep, rule):
     """The digests a verifier relies on are recorded on every build, whatever the configuration: the entries for the payload
     digest, its algorithm and the header SHA-256 are created on every path that reaches the construction of the header
@@ -60,7 +75,7 @@ def check_always_recorded(f, rep, rule):
         return
     for tag in ("RPMTAG_PAYLOADDIGEST", "RPMTAG_PAYLOADDIGESTALGO", "RPMTAG_PAYLOADDIGESTALT"):
         cs = [c for (t, _d, c) in ents if t == tag]
-        ok = bool(cs) and all(any(pd.dominates(h, x.bb) for c in cs for h in c.host_bb) for x in fe)
+        ok = bool(cs) and _must_pass(pd, [h for c in cs for h in c.host_bb], [x.bb for x in fe])
         rep.check(ok, rule, "%s|always" % tag, "%s is recorded on every build" % tag,
                   "%s is %s: a package built on the other paths carries no such digest and verification silently skips it" % (tag, "recorded only on some paths" if cs else "never recorded"),
                   cs[0].loc() if cs else pd.span)
@@ -69,7 +84,7 @@ def check_always_recorded(f, rep, rule):
             sets = [c for c in b.calls() if c.decl.endswith("set_sha256_digest")]
             builds = [c for c in b.calls() if c.decl.endswith("SignatureHeaderBuilder::<T>::build") or c.decl.endswith("SignatureHeaderBuilder::build") or re.search(r"SignatureHeaderBuilder(::<.*>)?::build$", c.decl)]
             if builds:
-                rep.check(bool(sets) and all(any(b.dominates(s_.bb, x.bb) for s_ in sets) for x in builds), rule, "%s|sha256-always" % fmt_key(b.path),
+                rep.check(bool(sets) and _must_pass(b, [s_.bb for s_ in sets], [x.bb for x in builds]), rule, "%s|sha256-always" % fmt_key(b.path),
                           "%s always records the header SHA-256" % fmt_key(b.path), "%s can build a signature header without the header SHA-256 digest" % b.path, b.span)
 
 
